@@ -146,10 +146,30 @@ def rule_usage(ctx, rep):
         rep.check(ok and names, "C11.usage", fl + ".gp_waiters", "gp_waiters is only pushed to and popped with pop_all (%s)" % sorted(names), "gp_waiters used through %s: single-node pop on it needs the pop lock / RCU" % sorted(names), [])
 
 
+def rule_iter(ctx, rep):
+    """Iteration over a popped stack: the decision tables of cds_wfs_first / cds_wfs_next_{blocking,nonblocking} over the
+    classes of the loaded next word {NULL (push in flight), END, a node}.  END ends the walk (NULL), a node is returned as is,
+    NULL waits (blocking) or yields WOULDBLOCK (non-blocking) - never `end of list`, which would silently drop every
+    older node of the popped list."""
+    from .. import dtable
+    m = ctx.mod("cds", "flat")
+    WB = -1
+    spec = {
+        "cds_wfs_next_nonblocking": {(0,): {WB}, (1,): {0}, ("X",): {"V0"}},
+        "cds_wfs_next_blocking": {(0,): set(), (1,): {0}, ("X",): {"V0"}},
+        "cds_wfs_first": {(1,): {0}, ("X",): {"ADDR"}},
+    }
+    for name, exp in spec.items():
+        f = m.fn(name)
+        pat.require(f is not None, name + " vanished")
+        dtable.compare(rep, "C11.iter", name, f, exp, "next word classes (0 = push in flight, 1 = END, X = node)")
+
+
 RULES = [
     ("C11.wfs", rule_wfs),
     ("C11.lfs", rule_lfs),
     ("C11.locked", rule_locked),
     ("C11.usage", rule_usage),
+    ("C11.iter", rule_iter),
 ]
 FLOORS = {}
